@@ -291,6 +291,73 @@ func concurrent(o *common.Opts, srv *procs.Server, dbs, conns, ops int, seed int
 	return int(total), int(hops)
 }
 
+// firstSelect: several connections select the same database at the same instant, for an index nobody has selected
+// since the server started. They must all land in one and the same keyspace: after everybody has written and stopped,
+// everybody (and a fresh connection) reads the same value.
+func firstSelect(o *common.Opts) (rounds int, note string) {
+	for k := 0; k < o.Pick(3, 20); k++ {
+		srv, err := startServer(o, 16, false, fmt.Sprintf("first%d", k))
+		if err != nil {
+			return rounds, "server start failed: " + err.Error()
+		}
+		const n = 8
+		var conns []*respc.Client
+		for i := 0; i < n; i++ {
+			c, err := respc.Dial(srv.Addr, 10*time.Second)
+			if err != nil {
+				break
+			}
+			conns = append(conns, c)
+		}
+		for d := 1; d < 16 && len(conns) == n; d++ {
+			var wg sync.WaitGroup
+			start := make(chan struct{})
+			sel := make([]string, n)
+			for i, c := range conns {
+				wg.Add(1)
+				go func(i int, c *respc.Client) {
+					defer wg.Done()
+					<-start
+					v, _ := c.Do("SELECT", strconv.Itoa(d))
+					sel[i] = v.String()
+					_, _ = c.Do("SET", "first:k", fmt.Sprintf("conn%d-db%d", i, d))
+				}(i, c)
+			}
+			close(start)
+			wg.Wait()
+			got := make([]string, n)
+			for i, c := range conns {
+				v, _ := c.Do("GET", "first:k")
+				got[i] = v.String()
+			}
+			fresh := ""
+			if c, err := respc.Dial(srv.Addr, 10*time.Second); err == nil {
+				_, _ = c.Do("SELECT", strconv.Itoa(d))
+				v, _ := c.Do("GET", "first:k")
+				fresh = v.String()
+				c.Close()
+			}
+			rounds++
+			same := true
+			for i := range got {
+				if got[i] != got[0] || got[i] != fresh {
+					same = false
+				}
+			}
+			if !same {
+				report(witness{Kind: "first-select", Detail: fmt.Sprintf("%d connections selected database %d at the same instant (first selection of that index since the server started; replies %v), each wrote first:k, all stopped; then they read %v and a fresh connection read %s: they are not in one keyspace", n, d, sel, got, fresh),
+					Sig: "first-select|connections selecting one index at once end up in different keyspaces"})
+				break
+			}
+		}
+		for _, c := range conns {
+			c.Close()
+		}
+		srv.Kill()
+	}
+	return rounds, ""
+}
+
 // clusterProbe: cluster mode serves one database whatever the configuration files say (the cluster configuration
 // object is given a "Databases" key in several spellings, the main configuration file asks for 16). Whatever SELECT
 // answers there, one connection's SELECT must not move another connection, and a database that was selected must be
@@ -414,6 +481,10 @@ func main() {
 			note = n
 		}
 	}
+	fsRounds, fsNote := firstSelect(o)
+	if fsNote != "" {
+		note = fsNote
+	}
 	clProbes, clNote := clusterProbe(o)
 	if clNote != "" {
 		note = clNote
@@ -496,13 +567,14 @@ func main() {
 				"and writing tagged values (connection, database, sequence) to the same key name; non-trivial = sweep probes + database hops performed inside concurrent histories",
 			"samples":                    []any{"SELECT \"01\" then SET probe -> located in exactly one database", "c3 SELECT 5; c3 SET k c3:d5:s17; c1 SELECT 2; c3 GET k -> must carry d5"},
 			"cluster_mode_select_probes": clProbes,
-			"select_probes":              probes,
-			"concurrent_histories":       histories,
-			"concurrent_operations":      opsDone,
-			"database_hops":              hops,
-			"race_reports":               raceReports,
-			"known_finding_hits":         knownHits,
-			"violation_samples":          vs,
+			"simultaneous_first_selections_of_an_index": fsRounds,
+			"select_probes":         probes,
+			"concurrent_histories":  histories,
+			"concurrent_operations": opsDone,
+			"database_hops":         hops,
+			"race_reports":          raceReports,
+			"known_finding_hits":    knownHits,
+			"violation_samples":     vs,
 		},
 		Assumptions: []string{"\"+1\", \"01\" and space-padded indexes are an open corner (accepted as that index or refused)", "TCP against the real binary; the race build is used in the thorough tier"}}
 	if note != "" {
